@@ -94,7 +94,10 @@ def gen_ops(rng, nops, allow_skip=False, allow_unmodelled=True, nvars=6):
         elif rng.random() < 0.35:
             ops.append([rng.choice(["pnet", "pnet", "cands", "seedsq", "readonly", "readonly"]), a])
         elif allow_unmodelled:
-            if rng.random() < 0.5:
+            q = rng.random()
+            if q < 0.3:
+                ops.append(["frontier", rng.randrange(1 << 30), rng.randint(2, 12), rng.choice([0.0, 0.1, 0.3]), rng.choice([0.0, 0.3])])
+            elif q < 0.65:
                 ops.append(["aseeds", rng.choice(LIMS)])
             else:
                 ops.append(["block", rng.random() < 0.5, rng.choice(LIMS)])
@@ -270,6 +273,41 @@ def apply_op(sd, ni, op):
                     raise
             return "none", "NOP"
         if kind == "pickle":
+            return "none", "NOP"
+        if kind in ("expsp", "bfssp"):
+            # expansion of the node with a given space (no-op when there is no such node)
+            j = sd.find_node(dict(op[1]))
+            if j is not None:
+                sd.node_successors(j, compute=True) if kind == "expsp" else sd.expand_bfs(node_id=j)
+            return "none", None
+        if kind == "frontier":
+            # hand-driven expansion: random stubs of the frontier one at a time (a node can be created
+            # before one of its parents); some with everything below; "late parents" whose new children
+            # are expanded completely while the children that existed before stay as they are
+            frng = random.Random(op[1])
+            late = op[4] if len(op) > 4 and not isinstance(op[4], dict) else 0.0
+            for _ in range(op[2]):
+                stubs = [i for i in sd.node_ids() if not sd.node_data(i)["expanded"]]
+                if not stubs:
+                    break
+                i = frng.choice(stubs)
+                r = frng.random()
+                if r < op[3]:
+                    sd.expand_bfs(node_id=i)
+                elif r < op[3] + late:
+                    old = len(sd)
+                    for c in sd.node_successors(i, compute=True):
+                        if c >= old:
+                            sd.expand_bfs(node_id=c)
+                else:
+                    sd.node_successors(i, compute=True)
+            return "none", None
+        if kind == "expseeds":
+            try:
+                sd.expanded_attractor_seeds()
+            except RuntimeError as e:
+                if isinstance(e, Injected):
+                    raise
             return "none", "NOP"
         if kind == "reclaim":
             sd.reclaim_node_data()
